@@ -771,9 +771,9 @@ def run(ctx):
     # 2. design: bounded-exhaustive configurations; the same runs emit the cases to replay
     plan = ([("MC_DpkgVersion_parts.cfg", 32), ("MC_DpkgVersion_full.cfg", 64), ("MC_DpkgVersion_triples.cfg", 1)]
             if quick else
-            [("MC_DpkgVersion_parts_thorough.cfg", 200), ("MC_DpkgVersion_full_thorough.cfg", 100),
+            [("MC_DpkgVersion_parts_thorough.cfg", 300), ("MC_DpkgVersion_full_thorough.cfg", 150),
              ("MC_DpkgVersion_triples_thorough.cfg", 1)])
-    nconc = 1 if quick else 3      # 1: canonical and random concretizations alternate
+    nconc = 1 if quick else 2      # 1: canonical and random concretizations alternate
     replayed = 0
     ctx.extra["configs"] = {}
 
@@ -793,7 +793,7 @@ def run(ctx):
              cases_per_sign={str(k): v for k, v in per_sign.items()}, pair_visits=n)
 
     # 2b. object layer: closed state space of two mutable objects; assignments replayed
-    name, stride = ("MC_DpkgVersion_obj.cfg", 48) if quick else ("MC_DpkgVersion_obj_thorough.cfg", 60)
+    name, stride = ("MC_DpkgVersion_obj.cfg", 48) if quick else ("MC_DpkgVersion_obj_thorough.cfg", 90)
     offset = rng.randrange(stride)
     r, muts, ops = design_run(ctx, name, stride, offset, module="DpkgVersionObj", tag="MUT")
     n, per_how = replay_muts(ctx, muts, ops, nconc)
